@@ -31,6 +31,7 @@ from ..refmodel.ctxmodel import KEYERROR
 from ..universe.prelude import mkmod
 
 ID = "C16"
+STATEFUL = True
 
 FORMS = ("base", "newtype", "alias", "stralias", "final", "fwdref")
 EXTRA = ("fwdref_newtype", "fwdref_alias", "fwdref_stralias")  # "order" unit only
